@@ -357,6 +357,141 @@ def deprecated_factory(quick, seed):
     return h, judge
 
 
+def rereg_factory(quick, seed):
+    """Registration AFTER first use: a primitive is differentiated, then its rules are registered again (more positions, other rules,
+    another API); the next differentiation must use the latest registration."""
+    L = lib()
+    ag, np, ext = L["ag"], L["np"], L["ext"]
+
+    def h(ch):
+        mode = ch.choose("mode", ["rev", "fwd"])
+        first = ch.choose("first_registration", ["x-only", "both", "x-only-argnums"])
+        second = ch.choose("second_registration", ["both-doubled", "both-doubled-argnum-api", "y-added-argnums"])
+        used_between = ch.choose("differentiated_in_between", [True, False])
+
+        @ext.primitive
+        def p(x, y):
+            return x * x * y
+        rx = lambda s_: (lambda ans, x, y: lambda g: s_ * g * 2 * x * y)
+        ry = lambda s_: (lambda ans, x, y: lambda g: s_ * g * x * x)
+        jx = lambda s_: (lambda g, ans, x, y: s_ * g * 2 * x * y)
+        jy = lambda s_: (lambda g, ans, x, y: s_ * g * x * x)
+        D = (lambda f, i: ag.grad(f, i)) if mode == "rev" else (lambda f, i: (lambda *a: ag.make_jvp(f, i)(*a)(1.0)[1]))
+        reg = (lambda *r, **k: ext.defvjp(p, *r, **k)) if mode == "rev" else (lambda *r, **k: ext.defjvp(p, *r, **k))
+        RX, RY = (rx, ry) if mode == "rev" else (jx, jy)
+        x0, y0 = 1.5, -0.7
+        out = {}
+        with warnings.catch_warnings():
+            warnings.simplefilter("ignore")
+            try:
+                if first == "x-only":
+                    reg(RX(1.0))
+                elif first == "both":
+                    reg(RX(1.0), RY(1.0))
+                else:
+                    reg(RX(1.0), argnums=(0,))
+                if used_between:
+                    out["first_dx"] = float(D(p, 0)(x0, y0))
+                if second == "both-doubled":
+                    reg(RX(2.0), RY(2.0))
+                    sx = sy = 2.0
+                elif second == "both-doubled-argnum-api":
+                    if mode == "rev":
+                        ext.defvjp_argnum(p, lambda argnum, ans, args, kw: (lambda g: 2.0 * g * (2 * args[0] * args[1] if argnum == 0 else args[0] ** 2)))
+                    else:
+                        ext.defjvp_argnum(p, lambda argnum, g, ans, args, kw: 2.0 * g * (2 * args[0] * args[1] if argnum == 0 else args[0] ** 2))
+                    sx = sy = 2.0
+                else:
+                    reg(RY(1.0), argnums=(1,))      # the registration table is replaced: x has no rule any more
+                    sx, sy = None, 1.0
+                for nm, i, sc, val in (("dx", 0, sx, 2 * x0 * y0), ("dy", 1, sy, x0 * x0)):
+                    try:
+                        out[nm] = ("value", float(D(p, i)(x0, y0)))
+                    except NotImplementedError:
+                        out[nm] = ("not-implemented", None)
+                    except Exception as e:
+                        out[nm] = ("raised", "%s: %s" % (type(e).__name__, str(e)[:80]))
+                    out[nm + "_want"] = ("not-implemented", None) if sc is None else ("value", sc * val)
+            except Exception as e:
+                out["exc"] = "%s: %s" % (type(e).__name__, str(e)[:100])
+        return mode, first, second, used_between, out
+
+    def judge(ch, o):
+        mode, first, second, used, out = o
+        feats = dict(mode=mode, first=first, second=second, used_between=used)
+        bad = None
+        if "exc" in out:
+            bad = ("raised", out["exc"], None)
+        else:
+            if used and abs(out["first_dx"] - 2 * 1.5 * -0.7) > 1e-12:
+                bad = ("wrong-value-before-reregistration", out["first_dx"], 2 * 1.5 * -0.7)
+            for nm in ("dx", "dy"):
+                got, want = out[nm], out[nm + "_want"]
+                # a missing rule must RAISE (NotImplementedError in reverse mode, a KeyError from the rule table in forward mode)
+                ok = (want[0] == "not-implemented" and got[0] in ("not-implemented", "raised")) or \
+                     (got[0] == want[0] == "value" and abs(got[1] - want[1]) <= 1e-12)
+                if not ok and bad is None:
+                    bad = ("latest-registration-not-used", {nm: got}, {nm: want})
+        v = None if bad is None else violation(PROP, "rereg", "-", mode, bad[0], feats, ch.choices, dict(feats), bad[1], bad[2],
+                                               "# user primitive p(x, y) = x*x*y: rules registered (%s), %sthen registered again (%s)" % (first, "differentiated, " if used else "", second))
+        return dict(v=v, nontrivial=used, outcome=(mode, first, second, used), counts={}, sample=dict(choices=list(ch.choices), **feats))
+
+    return h, judge
+
+
+def kwlevel_factory(quick, seed):
+    """Keyword arguments carry values too: a keyword argument that depends on a variable of an ENCLOSING differentiation reaches the rule
+    as that level's box, so the inner derivative stays differentiable by the outer level (user primitives and checkpoint)."""
+    L = lib()
+    ag, np, ext = L["ag"], L["np"], L["ext"]
+
+    def h(ch):
+        target = ch.choose("target", ["user-primitive", "checkpoint"])
+        inner = ch.choose("inner", ["rev", "fwd"])
+        outer = ch.choose("outer", ["rev", "fwd"])
+        depth = ch.choose("depth", [2, 3])
+        kwform = ch.choose("kw_value", ["x", "x*x", "array"])
+        if target == "user-primitive":
+            @ext.primitive
+            def p(y, scale=1.0):       # box-polymorphic body: the keyword value may be a box of an enclosing level
+                return np.sum(scale) * y ** 3
+            ext.defvjp(p, lambda ans, y, scale=1.0: lambda g: g * np.sum(scale) * 3 * y ** 2)
+            ext.defjvp(p, lambda g, ans, y, scale=1.0: g * np.sum(scale) * 3 * y ** 2)
+        else:
+            p = ag.checkpoint(lambda y, scale=1.0: np.sum(scale) * y ** 3)
+            if inner == "fwd":
+                raise Skip("checkpoint registers a reverse rule only")
+        Dop = lambda m: (ag.grad if m == "rev" else ag.deriv)
+        kwf = {"x": lambda x: x, "x*x": lambda x: x * x, "array": lambda x: x * onp.array([1.0, 2.0])}[kwform]
+        ksum = {"x": lambda x: x, "x*x": lambda x: x * x, "array": lambda x: 3.0 * x}[kwform]
+        dksum = {"x": lambda x: 1.0, "x*x": lambda x: 2 * x, "array": lambda x: 3.0}[kwform]
+        x0, y0 = 1.3, 0.8
+        want = dksum(x0) * 3 * y0 ** 2
+        with warnings.catch_warnings():
+            warnings.simplefilter("ignore")
+            try:
+                if depth == 2:
+                    got = Dop(outer)(lambda x: Dop(inner)(lambda y: p(y, scale=kwf(x)))(y0))(x0)
+                else:       # a third level in between whose variable also enters the keyword argument
+                    got = Dop(outer)(lambda x: Dop("rev")(lambda w: Dop(inner)(lambda y: p(y, scale=kwf(x) * w))(y0))(2.0))(x0)
+                got = float(got)
+            except Skip:
+                raise
+            except Exception as e:
+                got = "%s: %s" % (type(e).__name__, str(e)[:100])
+        return target, inner, outer, depth, kwform, got, want
+
+    def judge(ch, o):
+        target, inner, outer, depth, kwform, got, want = o
+        feats = dict(target=target, inner=inner, outer=outer, depth=depth, kw_value=kwform)
+        ok = not isinstance(got, str) and abs(got - want) <= 1e-12 * (1 + abs(want))
+        v = None if ok else violation(PROP, "kwlevel", target, inner + "-in-" + outer, "raised" if isinstance(got, str) else "wrong-value", feats, ch.choices, dict(feats), got, want,
+                                      "# d/dx d/dy p(y, scale=k(x)) with p(y, scale) = sum(scale) * y**3 (%s), k = %s" % (target, kwform))
+        return dict(v=v, nontrivial=True, outcome=tuple(feats.values()), counts={}, sample=dict(choices=list(ch.choices), **feats))
+
+    return h, judge
+
+
 def checkpoint_factory(quick, seed):
     L = lib()
     ag, np = L["ag"], L["np"]
@@ -431,12 +566,12 @@ def checkpoint_factory(quick, seed):
     return h, judge
 
 
-HARNESSES = {"contract": contract_factory, "linear": linear_factory, "checkpoint": checkpoint_factory, "deprecated": deprecated_factory}
+HARNESSES = {"contract": contract_factory, "linear": linear_factory, "checkpoint": checkpoint_factory, "deprecated": deprecated_factory, "rereg": rereg_factory, "kwlevel": kwlevel_factory}
 
 
 def run(ctx):
     rep = Report("exploration")
-    run_harnesses(ctx, rep, __name__, ["contract", "linear", "checkpoint", "deprecated"], depth=4)
+    run_harnesses(ctx, rep, __name__, ["contract", "linear", "checkpoint", "deprecated", "rereg", "kwlevel"], depth=4)
     rep.add(rule="contract: (arity, registered subset, mode, registration API, differentiated positions incl. unregistered ones, trace level per "
                  "argument, kwargs); checkpoint: (program, point, wrapping); non-trivial = several differentiated arguments or two trace levels / >=2 ops")
     rep.assumptions = ["arity <= %d; programs n <= %d over sin/*/+; orders 1..3" % ((3, 3) if ctx.quick else (5, 4)),
